@@ -1,5 +1,8 @@
 #!/bin/bash
 # usage: run.sh <ID> [quick|thorough] [extra args]   — builds the check from /repo's current tree and runs it.
+#        run.sh <ID> race [N]  — auxiliary pass: the check is built with -race and every controlled-scheduler scenario is run
+#        N (default 200) times FREE-RUNNING (real goroutines, real primitives); data races the detector reports are
+#        written to race/<ID>.json. Exit 0 when none, 3 when races were reported (never a VIOLATION line: see DESIGN §7).
 # exit 0 held / 1 VIOLATION / 2 harness problem (build error, vacuous run) — never a VIOLATION line for 2.
 # VERIF_REPO=<dir> (set by hand only, for mutation demonstrations) points the build at a scratch copy of the
 # tree; evidence then goes to .work/<id>/mut-evidence instead of /verif/evidence.
@@ -33,6 +36,18 @@ if [ -f checks/$id/instr.txt ]; then
   INSTR=$W/instr.json
 fi
 python3 tools/mkoverlay.py $REPO $INSTR > $W/overlay.json
+if [ "$TIER" = race ]; then
+  N=${1:-200}
+  if ! go build $MODFLAG -race -trimpath -tags verif -overlay $W/overlay.json -o $BIN-race ./checks/$id 2> $W/build.log; then
+    echo "HARNESS-BUILD-ERROR $ID (race build)"; tail -40 $W/build.log; exit 2
+  fi
+  rm -f $W/racelog.*; mkdir -p race
+  GORACE="log_path=$PWD/$W/racelog halt_on_error=0 history_size=3" $BIN-race -tier quick -free $N > $W/race.out 2>&1
+  tail -3 $W/race.out
+  python3 tools/racereport.py $ID $W $N > race/$ID.json; rc=$?
+  cat race/$ID.json | head -40
+  exit $rc
+fi
 if ! go build $MODFLAG -trimpath -tags verif -overlay $W/overlay.json -o $BIN ./checks/$id 2> $W/build.log; then
   echo "HARNESS-BUILD-ERROR $ID"; tail -40 $W/build.log; exit 2
 fi
